@@ -47,8 +47,8 @@ CHECKS = {
     ),
     'C20': dict(
         level='exploration',
-        units=[U('^TestC20$', (8, 8000, 40), (16, 60000, 80))],
-        essential_labels=['add-after-query', 'merge', 'duplicate-heavy', 'q-on-integer-rank'],
+        units=[U('^TestC20$', (8, 8000, 40), (16, 60000, 80)), U('^TestC20_LargeScale$', (2, 150), (4, 5000))],
+        essential_labels=['add-after-query', 'merge', 'duplicate-heavy', 'q-on-integer-rank', 'large-scale', 'batch:below-min'],
         assumptions=COMMON_ASSUMPTIONS + ["rho=q*(n-1) is accepted evaluated exactly or in binary64 (they differ only within half an ulp of an integer)", "NaN q and Min/Max of an empty dataset are outside the statement and not exercised"],
     ),
     'C04': dict(
